@@ -5,6 +5,7 @@ import (
 	"errors"
 	"fmt"
 	"io"
+	"math"
 
 	"github.com/btcsuite/btcd/btcec/v2"
 )
@@ -359,6 +360,14 @@ func DBigSize(r io.Reader, val interface{}, buf *[8]byte, l uint64) error {
 		if err != nil {
 			return err
 		}
+
+		// A value that doesn't fit the target must not be truncated
+		// silently.
+		if v > math.MaxUint32 {
+			return fmt.Errorf("BigSize value %d overflows uint32",
+				v)
+		}
+
 		*i = uint32(v)
 		return nil
 	}
